@@ -55,6 +55,14 @@ package main
 //   * a pointer copied from one object into another (`a.p = b.p`) is a copy of
 //     the pointee (listed in `ptrCopies` for review: faithful while nobody
 //     writes through either).
+//
+// OPT-IN: all of this is ON only for a configuration with `Own: true` (ownOn
+// below).  Every hook in the shared files is behind it, directly (zeroOpaque,
+// builtinOwn, ptrValOwn, addrOfOwn, ownUsed) or through `f.own == nil`
+// (initOwned leaves it nil; then ownWritable, updateBase, assignThrough,
+// assignOther, afterIdentAssign, assignOwn, rangeCursor, foundDecl, stmtOwn and
+// voidReturn do what the base translator does).  go2lean_effects.go (Effects)
+// covers some of the same Go forms in another way and the two never run together.
 
 import (
 	"fmt"
@@ -87,6 +95,9 @@ type g2lOwnFacts struct {
 }
 
 var g2lOwnRuns = map[*g2l]*g2lOwnFacts{}
+
+// ownOn: does the configuration ask for this file?
+func (g *g2l) ownOn() bool { return g.cfg.Own }
 
 func (g *g2l) ownFacts() *g2lOwnFacts {
 	if of, ok := g2lOwnRuns[g]; ok {
@@ -275,9 +286,12 @@ func (g *g2l) ownedLocals(fd *ast.FuncDecl) map[types.Object]bool {
 
 // initOwned prepares the state of this file for the function fd.
 func (f *g2lFn) initOwned(fd *ast.FuncDecl) {
+	if !f.g.ownOn() {
+		return // f.own stays nil
+	}
 	f.own = &g2lOwnState{owned: map[types.Object]bool{}, cursors: map[types.Object]*g2lCursor{}, found: map[types.Object]*g2lCursor{}, rangeIdx: map[types.Object]string{}}
 	if f.fnObj != nil {
-		f.own.void = f.g.cfg.UnitVoid && f.fnObj.Type().(*types.Signature).Results().Len() == 0
+		f.own.void = f.fnObj.Type().(*types.Signature).Results().Len() == 0
 	}
 	owned := f.g.ownedLocals(fd)
 	var names []string
@@ -295,11 +309,17 @@ func (f *g2lFn) initOwned(fd *ast.FuncDecl) {
 
 // ptrValOwn: pointer expressions held as their pointee by this file.
 func (f *g2lFn) ptrValOwn(e ast.Expr) bool {
+	if !f.g.ownOn() {
+		return false
+	}
 	return g2lIsBuiltinCall(f.g.info, e, "new") != nil || g2lAddrOfLit(e) != nil
 }
 
 // builtinOwn: new(T) (the zero pointee) and make([]T, n).
 func (f *g2lFn) builtinOwn(name string, c *ast.CallExpr) (string, bool) {
+	if !f.g.ownOn() {
+		return "", false
+	}
 	switch name {
 	case "new":
 		if len(c.Args) != 1 {
@@ -349,6 +369,9 @@ func (f *g2lFn) builtinOwn(name string, c *ast.CallExpr) (string, bool) {
 // addrOfOwn: &T{…} (the pointee; see ptrValOwn) and &x of a local whose
 // assignments all precede the expression.
 func (f *g2lFn) addrOfOwn(x *ast.UnaryExpr) (string, bool) {
+	if !f.g.ownOn() {
+		return "", false
+	}
 	if cl := g2lAddrOfLit(x); cl != nil {
 		return f.expr(cl), true
 	}
@@ -507,7 +530,7 @@ func (f *g2lFn) ownWritable(e ast.Expr) bool {
 // updateBase: for `X.f = v` with X a pointer: the pointee of X, and what to
 // store back into X for a new pointee.
 func (f *g2lFn) updateBase(X ast.Expr) (base string, wrap func(string) string) {
-	if !g2lIsPtr(f.typeOf(X)) {
+	if f.own == nil || !g2lIsPtr(f.typeOf(X)) {
 		return f.expr(X), func(s string) string { return s }
 	}
 	if f.ptrVal(X) {
@@ -1267,7 +1290,7 @@ func (f *g2lFn) voidReturn(ind int) ([]string, bool) {
 
 func (g *g2l) ownUsed() bool {
 	of, ok := g2lOwnRuns[g]
-	if !ok {
+	if !ok || !g.ownOn() {
 		return false
 	}
 	return len(of.ownedLocals)+len(of.elemCursors)+len(of.nilFreeMakes)+len(of.ptrCopies)+len(of.lateAddr) > 0
@@ -1338,7 +1361,7 @@ func (of *g2lOwnFacts) foundList() [][2]string { return of.elemFound }
 // maps to an opaque Lean type is that type's `default` (Props pins what it is).
 func (g *g2l) zeroOpaque(t types.Type, lt string) (string, bool) {
 	n, ok := types.Unalias(t).(*types.Named)
-	if !ok {
+	if !ok || !g.ownOn() {
 		return "", false
 	}
 	k := g.typeKey(n)
